@@ -120,10 +120,11 @@ def pySlice (xs : List α) (start stop : Option Int) (step : Int) : List α :=
   let e := clampIdx xs.length stop xs.length
   stride step.toNat ((xs.take e).drop s)
 
-/-- the same as an index comprehension `[xs[i] for i in range(s, e, step)]` -/
+/-- the same as an index comprehension: `[xs[i] for i in range(s, e) if (i - s) % step == 0]`, i.e. the
+elements at the indices `range(s, e, step)` of the clamped bounds -/
 def pySliceIdx (xs : List α) (start stop : Option Int) (step : Int) : List α :=
   let s := clampIdx xs.length start 0
   let e := clampIdx xs.length stop xs.length
-  (List.range ((e - s + step.toNat - 1) / step.toNat)).filterMap (fun j => xs[s + j * step.toNat]?)
+  (List.range' s (e - s)).filterMap (fun i => if (i - s) % step.toNat == 0 then xs[i]? else none)
 
 end Ops.Slice
